@@ -153,7 +153,8 @@ def run_terminal(m, enc, cps, mode, acc, root):
         seen_vals.clear()
         if not vals:
             return
-        acc.evals += 1
+        acc.evals += len(vals)
+        acc.count('terminal_batches')
         msg = roundtrip(m, path, vals, enc)
         if msg:
             # bisect: value by value
@@ -311,7 +312,8 @@ def run_omen(enc, cps, acc):
     def flush():
         if not batch:
             return
-        acc.evals += 1
+        acc.evals += len(batch)
+        acc.count('training_batches')
         lines = [pw(ch) for ch in batch]
         fails = compare_training(wd, lines, enc, acc, None)
         if fails:
@@ -357,7 +359,7 @@ def run_hexjunk(enc, acc):
     def hexline(s):
         return b'$HEX[' + s.encode(enc).hex().encode('ascii') + b']'
     cases = [('x' + ch + 'yz') for ch in danger] + [ch + 'xyz' for ch in danger] + ['xyz' + ch for ch in danger] + ['']
-    acc.evals += 1
+    acc.evals += len(cases)
     acc.nontrivial += len(cases)
     data = b'\n'.join(base + [hexline(c) for c in cases]) + b'\n'
     fails = compare_training(wd, None, enc, acc, None, raw_bytes=data)
